@@ -32,7 +32,6 @@ type pairConc struct {
 }
 
 func (c pairConc) build() *schedx.Instance {
-	markCase("concurrent-frames", c.name)
 	tw := buildFlavour(c.swap, c.pending)
 	// a populated routing table: routes learned through X and Y to destinations that sort
 	// before and after the peers, so that a disconnect of X removes many entries at once.
@@ -116,8 +115,12 @@ func runPairSched(t *testing.T, rep *kit.Report, env kit.Env) {
 	rep.Bounds["sched_preemption_bound"] = bound
 	top := 0
 	for _, c := range pairConcs(env.Deep()) {
+		// (marked here, outside the bubbles of virtual time the executions run in: the
+		// stall oracle measures real time)
+		markCase("concurrent-frames", c.name)
 		schedx.ExploreConc(rep, env, c.conc(t, true), bound, &top)
 	}
+	markCase("", "")
 }
 
 // TestC13Race: the same deliveries on free-running goroutines under the race
